@@ -465,6 +465,8 @@ class Engine:
                      "stream."))
         if nw >= 2:
             p["cache_flush_midstream"] = 1
+        if res.get("_read_after_eof"):
+            p["source_read_after_eof"] = 1
         if res.get("_flush_at_stop"):
             p["stop_while_event_open"] = 1
         if sc["stop"] is not None:
@@ -605,9 +607,9 @@ class Engine:
                              "%d of %d bytes, eof=%d" % (
                                  len(served), len(data), src.eof_returned))
             if src.reads_after_eof:
-                return V("C12.5", "source read %d time(s) after it returned "
-                         "end of stream" % src.reads_after_eof,
-                         "C12.5:read_after_eof")
+                # single end-of-stream request is C08's statement (checked by
+                # engine online, L3); here only a probe
+                res["_read_after_eof"] = True
 
         if prop == "C13":
             v = self._judge_files(sc, res, E, tmp, W, V, "C13", base)
